@@ -159,6 +159,8 @@ type clientState struct {
 	malformed string // reply stream stopped being RESP
 	rawSent   bool
 	pushMode  bool // after SUBSCRIBE: further values are pushes
+	lastDone  *OpRec
+	closedSeq int64
 }
 
 // RunResult is everything the oracles look at.
@@ -357,7 +359,8 @@ func (w *World) collect() {
 			c.waiting = c.waiting[1:]
 			op.Reply, op.Done, op.ReturnSeq, op.ReturnAt = v, true, w.res.Seq, time.Now()
 			w.trace("c%d reply#%d %s", i, op.StepIdx, truncate(v.String(), 80))
-			if len(op.Args) > 0 && strings.EqualFold(string(op.Args[0]), "subscribe") && v.Kind == rd.Array {
+			c.lastDone = op
+			if c.prog.Role == "subscriber" && len(op.Args) > 0 && strings.EqualFold(string(op.Args[0]), "subscribe") && v.Kind == rd.Array {
 				c.pushMode = true
 			}
 		}
@@ -732,6 +735,8 @@ func (w *World) apply(e event) {
 		if e.kind == "close" {
 			c.conn.clientClose()
 			c.closed = true
+			w.res.Seq++
+			c.closedSeq = w.res.Seq
 			w.res.Faults["disconnect"]++
 		} else {
 			c.conn.halfClose()
